@@ -122,7 +122,7 @@ pub fn v110_case(npk: usize, nwait: usize, variant: usize) -> Case {
         name: format!("mig:v110:{npk}:{nwait}:{variant}"),
         run: Box::new(move |f: &Filter, mw: bool| {
             let cfg = CfgSpec::base();
-            let s = crate::scen::Structure { name: "mig".into(), cfg: cfg.clone(), batches: vec![crate::scen::BatchSpec { status: crate::scen::St::Received, reqs: vec![0], withdrawn: 0, due: 0 }, crate::scen::BatchSpec { status: crate::scen::St::Pending, reqs: vec![1], withdrawn: 0, due: 1 }], packets: vec![], nonempty_pool: true };
+            let s = crate::scen::Structure { name: "mig".into(), cfg: cfg.clone(), batches: vec![crate::scen::BatchSpec { status: crate::scen::St::Received, reqs: vec![0], withdrawn: 0, due: 0 }, crate::scen::BatchSpec { status: crate::scen::St::Pending, reqs: vec![1], withdrawn: 0, due: 1 }], packets: vec![], nonempty_pool: true, id_base: 0 };
             let mut b = scen::build(&s);
             let who = b.chain.who.clone();
             let statuses = [PacketLifecycleStatus::Sent, PacketLifecycleStatus::AckFailure, PacketLifecycleStatus::TimedOut, PacketLifecycleStatus::AckSuccess];
